@@ -26,6 +26,7 @@ type vhGate struct {
 	timedOut  bool
 	queue     []int // signals queued in the ready group, oldest first
 	reenter   int
+	quiet     bool // ghost checks off (the rebuild harness drives the gate itself after the prefix)
 }
 
 func vhNewGate(P int) *vhGate {
@@ -41,6 +42,9 @@ func vhNewGate(P int) *vhGate {
 			}
 		}
 		g.lastAll = all
+		if g.quiet {
+			return
+		}
 		g.checkFire()
 		// re-entrancy: the consumer of the callback may set up the next hand from inside it
 		// (configuration re=1); the new set-up must then work like any other
